@@ -172,4 +172,35 @@ FieldInRange(f, bytes) ==
 AllInRange(d, bytes) ==
   /\ d.decodable /\ d.static
   /\ \A k \in 1..Len(d.fields) : FieldInRange(d.fields[k], bytes)
+----------------------------------------------------------------------------
+(* Encode side (C02, C09).  A requested number is described exactly by     *)
+(*   fl  = floor((value - Offset) / Resolution)   (sign-magnitude)         *)
+(*   cls = "zero" (exactly on a step) | "lt" | "half" | "gt"               *)
+(* "to within half a resolution step": on an exact tie either neighbour.   *)
+
+AllowedTicks(fl, cls) ==
+  CASE cls \in {"zero", "lt"} -> {fl}
+    [] cls = "half"           -> {fl, SMInc(fl)}
+    [] cls = "gt"             -> {SMInc(fl)}
+
+\* the ticks of the largest / smallest code that is not the not-available pattern
+MaxCode(f) == IF f.twos /\ f.len >= 4
+              THEN [k \in 1..f.len |-> IF k = 1 \/ k = f.len THEN 0 ELSE 1]     \* 0111..10
+              ELSE IF f.twos
+              THEN [k \in 1..f.len |-> IF k = f.len THEN 0 ELSE 1]              \* 011 (sentinel is 111)
+              ELSE [k \in 1..f.len |-> IF k = 1 THEN 0 ELSE 1]                  \* 111..10
+MinCode(f) == IF f.twos THEN [k \in 1..f.len |-> IF k = f.len THEN 1 ELSE 0]    \* 100..0
+              ELSE [k \in 1..f.len |-> 0]
+SentinelCode(f) == IF f.twos /\ f.len >= 4 THEN [k \in 1..f.len |-> IF k = f.len THEN 0 ELSE 1]
+                   ELSE [k \in 1..f.len |-> 1]
+Representable(f, t) == /\ SMLeq(Ticks(f, MinCode(f)), t) /\ SMLeq(t, Ticks(f, MaxCode(f)))
+                       /\ ~SMEq(t, Ticks(f, SentinelCode(f)))
+SomeRepresentable(f, fl, cls) == \E t \in AllowedTicks(fl, cls) : Representable(f, t)
+
+\* clause for one numeric field of an encoder output
+EncNumVerdict(f, code, req) ==
+  IF req.k = "na" THEN (IF Sentinel(f, code) THEN "ok" ELSE "encode.not-available-lost")
+  ELSE IF Sentinel(f, code) THEN "encode.value-became-not-available"
+  ELSE IF Ticks(f, code) \in AllowedTicks(SM(req.neg, req.mag), req.cls) THEN "ok"
+  ELSE "encode.wrong-code"
 =============================================================================
